@@ -30,6 +30,10 @@ type site struct {
 	extra   func() map[string]any
 	lw      *lower    // the lower layers under the store being audited
 	zc      *zipCache // validated zips of the case
+	// wholeSeen: outcome of the last wholeAudit per whole-file ref: "served" (every probed offset
+	// opened and delivered exactly the file from there), "notexist" (every probed offset answered
+	// os.ErrNotExist), "mixed" (anything else)
+	wholeSeen map[blob.Ref]string
 }
 
 // dupCause explains from the lower layers why a blob could be listed twice.
@@ -256,6 +260,7 @@ func (s *site) streamAudit(ck *sto.Checker) {
 // wholeAudit: OpenWholeRef is either not-exist (pack incomplete) or exactly the file from off.
 func (s *site) wholeAudit(st blobserver.Storage, rng *rand.Rand, must map[blob.Ref]bool) (servedRefs map[blob.Ref]bool) {
 	servedRefs = map[blob.Ref]bool{}
+	s.wholeSeen = map[blob.Ref]string{}
 	wf, ok := st.(blobserver.WholeRefFetcher)
 	if !ok {
 		s.viol("wholeref/unsupported/"+s.tail(), fmt.Sprintf("%T is no WholeRefFetcher", st))
@@ -323,8 +328,14 @@ func (s *site) wholeAudit(st blobserver.Storage, rng *rand.Rand, must map[blob.R
 				s.viol("wholeref/error/"+s.tail(), fmt.Sprintf("OpenWholeRef(%v,%d): %v", f.WholeRef, off, openErr))
 			}
 		}
-		if served > 0 && missing == 0 && wrong == 0 {
+		switch {
+		case served > 0 && missing == 0 && wrong == 0:
 			servedRefs[f.WholeRef] = true
+			s.wholeSeen[f.WholeRef] = "served"
+		case missing > 0 && served == 0 && wrong == 0:
+			s.wholeSeen[f.WholeRef] = "notexist"
+		default:
+			s.wholeSeen[f.WholeRef] = "mixed"
 		}
 		if served > 0 {
 			s.r.Count("wholeref_served", 1)
